@@ -47,6 +47,11 @@ func (i *inspect) columns(ctx context.Context, t *schema.Table) error {
 			return fmt.Errorf("sqlite: %w", err)
 		}
 	}
+	// An error met while stepping through the result (e.g. "database is locked", which
+	// SQLite reports from the first step, not from the query) ends the loop like the last row.
+	if err := rows.Err(); err != nil {
+		return fmt.Errorf("sqlite: reading %q columns: %w", t.Name, err)
+	}
 	if pk := t.PrimaryKey; pk != nil {
 		// The `pk` field of table_xinfo is the 1-based position of the column in the key.
 		sort.SliceStable(pk.Parts, func(i, j int) bool { return pk.Parts[i].SeqNo < pk.Parts[j].SeqNo })
@@ -156,7 +161,7 @@ func (i *inspect) addIndexes(t *schema.Table, rows *sql.Rows) error {
 		}
 		t.Indexes = append(t.Indexes, idx)
 	}
-	return nil
+	return rows.Err()
 }
 
 var (
@@ -201,6 +206,9 @@ func (i *inspect) indexInfo(ctx context.Context, t *schema.Table, idx *schema.In
 		}
 		idx.Parts = append(idx.Parts, part)
 	}
+	if err := rows.Err(); err != nil {
+		return fmt.Errorf("sqlite: reading index %q: %w", idx.Name, err)
+	}
 	if !hasExpr {
 		return nil
 	}
@@ -242,6 +250,8 @@ func (i *inspect) fks(ctx context.Context, t *schema.Table) error {
 }
 
 func (i *inspect) addFKs(t *schema.Table, rows *sql.Rows) error {
+	// Release the result set (and its connection) on every return path.
+	defer rows.Close()
 	ids := make(map[int]*schema.ForeignKey)
 	for rows.Next() {
 		var (
@@ -290,7 +300,7 @@ func (i *inspect) addFKs(t *schema.Table, rows *sql.Rows) error {
 			fk.RefColumns = append(fk.RefColumns, rc)
 		}
 	}
-	return nil
+	return rows.Err()
 }
 
 // tableNames returns a list of all tables exist in the schema.
@@ -334,6 +344,9 @@ func (i *inspect) tables(ctx context.Context, opts *schema.InspectOptions) ([]*s
 		}
 		tables = append(tables, t)
 	}
+	if err := rows.Err(); err != nil {
+		return nil, fmt.Errorf("sqlite: reading schema tables: %w", err)
+	}
 	return tables, nil
 }
 
@@ -369,6 +382,9 @@ func (i *inspect) databases(ctx context.Context, opts *schema.InspectRealmOption
 			Name:  name.String,
 			Attrs: []schema.Attr{&File{Name: file.String}},
 		})
+	}
+	if err := rows.Err(); err != nil {
+		return nil, fmt.Errorf("sqlite: reading schemas: %w", err)
 	}
 	return schemas, nil
 }
